@@ -93,6 +93,8 @@ def identical(a, b):
     and heap objects are)"""
     if a is None or b is None:
         return a is None and b is None
+    if a is b:
+        return True
     if isinstance(a, (SList, SDict, SObj, SOpaque, SSet)) or isinstance(b, (SList, SDict, SObj, SOpaque, SSet)):
         # a snapshot taken for old(...) stands for the object it was copied from
         a0 = getattr(a, 'origin', None) or a
